@@ -7,7 +7,8 @@ THEOREMS = ['C06_feed_tracks_coord', 'C06_advance_to_tracks_coord', 'C06_from_te
             'C06_lexer_coords', 'C06_lexer_coords_under_H_nl', 'C06_dyn_coords_str', 'C06_dyn_coords_bytes',
             'C06_dyn_token_coords', 'C06_meta_span', 'C06_meta_passthrough', 'C06_meta_span_inlined_token_refuted',
             'C06_test_newline_false_refuted', 'C06_spans_ordered_nested', 'C06_example',
-            'C06_tree_coords_exact', 'C06_tree_container_span', 'C06_tree_own_span', 'C06_tree_example']
+            'C06_tree_coords_exact', 'C06_tree_container_span', 'C06_tree_own_span', 'C06_tree_example',
+            'C06_empty_child_example']
 GEN_DEPS = ['LineCounter', 'LexStep', 'DynStep']
 RULE = ('random token-soup grammars (1-4 kept + 0-2 ignored terminals from a regex fragment, 1-2 newline-capable '
         'terminals spelled \\n, \\r?\\n, [\\n], \\s, [^...], \\W, \\D, [\\t-\\r], (?s:.), \\x0a, [\\x00-\\x1f], global DOTALL; '
@@ -137,6 +138,15 @@ def correspond(ctx):
                     col.run('struct', g, parser, lexer, text, rep, win, 'parse', ())
             if rng.random() < 0.3:
                 col.run('scan', g, 'lalr', 'contextual', '?? ' + text + ' ?\n' + text, 'str', None, 'scan', ())
+    # 2b. boundary family (fixed): inputs starting at offset 0 with a filtered opening token and ending with a
+    #     filtered closing token, under every configuration, as whole texts and as windows at offset 0 and > 0
+    for g, texts in P.BOUNDARY:
+        for text in texts:
+            for parser, lexer in P.CONFIGS:
+                for win in P.BOUNDARY_WINDOWS:
+                    if win is not None and lexer in P.DYNAMIC:
+                        continue
+                    col.run('boundary', g, parser, lexer, text, 'bytes' if (win and win[0] == 'ab') else 'str', win, 'parse', ())
     # 3. fixed exotic witnesses (F1, F2 repaired: these pass; F23 is a listed finding)
     exotic(col)
     col.check()
